@@ -31,18 +31,30 @@ Theorem C03_filter : forall a n ops s es c,
   recv 0 c (concat es) = firstn (gets 0 c ops) (filter (admitted a) (puts 0 ops)).
 Proof. exact filter_delivery. Qed.
 
-(* A consumer sees a token after a termination token only if it entered the port's history after it... *)
-Theorem C03_after_term : forall kd n ops s es k p c l1 st l2,
+(* "No consumer observes tokens after a termination token" is NOT a theorem of ports.  What holds (PARTIAL):
+   a consumer's sequence is a prefix of the port's history, so a token seen after a termination token entered the
+   history after it (C03_after_term_partial); hence on a plain port whose producers put nothing after a termination
+   token nobody sees anything after it (C03_term_last_partial).  For an inter-workflow port the clause is REFUTED: a
+   TERMINATE rule that is complete re-fires on every later token, so the port itself puts tokens and terminations
+   after a termination token on the boundary target although no producer ever put a termination token
+   (C03_inter_term_then_token_refuted; known finding inter/token-after-termination/completed-terminate-rule). *)
+Theorem C03_after_term_partial : forall kd n ops s es k p c l1 st l2,
   run (init kd n) ops = (s, es) -> nth_error (ports s) k = Some p ->
   recv k c (concat es) = l1 ++ Term st :: l2 ->
   exists l3, tl p = l1 ++ Term st :: l2 ++ l3.
 Proof. exact after_term. Qed.
-(* ... hence never, when the producers put nothing after a termination token *)
-Theorem C03_term_last : forall n ops s es k c l1 st l2,
+Theorem C03_term_last_partial : forall n ops s es k c l1 st l2,
   run (init KPlain n) ops = (s, es) -> k < n ->
   (forall a b t, puts k ops = a ++ t :: b -> is_term t = true -> b = []) ->
   recv k c (concat es) = l1 ++ Term st :: l2 -> l2 = [].
 Proof. exact term_last. Qed.
+
+Theorem C03_inter_term_then_token_refuted :
+  exists ops s es,
+    run (init KInter 2) ops = (s, es) /\
+    forallb (fun t => negb (is_term t)) (puts 0 ops) = true /\ puts 1 ops = [] /\
+    recv 1 "x" (concat es) = [Tok 1 "0.1"; Term RECOVERED; Tok 2 "0.2"; Term RECOVERED].
+Proof. exact inter_term_then_token_refuted. Qed.
 
 (* InterWorkflowPort.  The history of every port of the system is what the queue-free expansion [trace] of the
    operations puts on it ... *)
@@ -139,8 +151,9 @@ Proof. vm_compute. reflexivity. Qed.
 Print Assumptions C03_delivery.
 Print Assumptions C03_plain.
 Print Assumptions C03_filter.
-Print Assumptions C03_after_term.
-Print Assumptions C03_term_last.
+Print Assumptions C03_after_term_partial.
+Print Assumptions C03_term_last_partial.
+Print Assumptions C03_inter_term_then_token_refuted.
 Print Assumptions C03_boundary_history.
 Print Assumptions C03_boundary_put.
 Print Assumptions C03_boundary_add.
